@@ -346,9 +346,9 @@ class NugetVersion(Version):
     @classmethod
     def is_valid(cls, string):
         try:
-            cls.build_value(string)
-            return True
-        except ValueError:
+            # from_string returns None for an empty string
+            return cls.build_value(string) is not None
+        except (ValueError, nuget.InvalidNuGetVersion):
             return False
 
 
